@@ -239,6 +239,11 @@ func spaceAfterToken(subject, before, after *Token) bool {
 		// Don't split namespace segments in a function call
 		return false
 
+	case subject.Type == hclsyntax.TokenDot && before.Type == hclsyntax.TokenNumberLit && startsLikeNumberTail(after):
+		// "0 .1" must not become the number literal "0.1", nor "1 .e5" the
+		// literal "1.e5": keep the dot apart from what follows it.
+		return true
+
 	case subject.Type == hclsyntax.TokenDot || after.Type == hclsyntax.TokenDot:
 		// Don't use spaces around attribute access dots
 		return false
@@ -469,4 +474,20 @@ type formatLine struct {
 	lead    Tokens
 	assign  Tokens
 	comment Tokens
+}
+
+// startsLikeNumberTail reports whether tok, written directly after
+// "<digits>.", would be scanned as a continuation of that number literal.
+func startsLikeNumberTail(tok *Token) bool {
+	b := tok.Bytes
+	isDigit := func(c byte) bool { return c >= '0' && c <= '9' }
+	switch tok.Type {
+	case hclsyntax.TokenNumberLit:
+		return true
+	case hclsyntax.TokenIdent:
+		if len(b) >= 2 && (b[0] == 'e' || b[0] == 'E') {
+			return isDigit(b[1]) || (len(b) >= 3 && (b[1] == '-' || b[1] == '+') && isDigit(b[2]))
+		}
+	}
+	return false
 }
